@@ -143,4 +143,56 @@ def trun : TSt → List TAct → TSt
     | some s' => trun s' as
     | none => trun s as
 
+/-! ### Which executor `Upgrader.Upgrade` installs (nbhttp/websocket/upgrader.go, the scenario switch)
+
+`wsc.Execute` decides where the message callbacks run. The ordering theorems of this file are about connections whose
+receive steps go through the conn's job queue (`recv` = `Execute(job)` on ExecQ); the decision table below says for
+which upgrade scenarios that is the case. -/
+
+/-- the branches of the switch on the hijacked conn's type -/
+inductive Scenario
+  | s1        -- `*nbio.Conn`: poller-driven, plain
+  | s2_1_1    -- llib `*tls.Conn` over a non-poller conn, transferred to the poller
+  | s2_1_2    -- llib `*tls.Conn` over a non-poller conn, kept blocking
+  | s2_2      -- llib `*tls.Conn` over a `*nbio.Conn`: poller-driven, TLS
+  | s3_1      -- `*net.TCPConn`, transferred to the poller
+  | s3_2      -- `*net.TCPConn`, kept blocking
+  | s4        -- anything else (std `*tls.Conn`): blocking
+  deriving DecidableEq, Repr
+
+inductive EpollMode | lt | et | etOneshot
+  deriving DecidableEq, Repr
+
+inductive Exec
+  | connQueue   -- `nbio.Conn.Execute`: the per-connection job queue (ExecQ) that also runs the HTTP handler and the close job
+  | sync        -- `nbhttp.SyncExecutor`: run in the calling (reading) goroutine
+  | none        -- left nil: the websocket Conn's own read loop calls the handlers directly
+  deriving DecidableEq, Repr
+
+def pollerDriven : Scenario → Bool
+  | .s1 | .s2_2 => true
+  | _ => false
+
+def transferred : Scenario → Bool
+  | .s2_1_1 | .s3_1 => true
+  | _ => false
+
+/-- `parser.Execute` as the HTTP engine's add paths set it: non-blocking conns get `nbc.Execute`, blocking-mode
+    parsers `SyncExecutor`; a std `http.Server` has no nbhttp parser -/
+def blockingParserExec (hasParser : Bool) : Exec := if hasParser then .sync else .none
+
+/-- the decision table of `Upgrade` -/
+def execOf (sc : Scenario) (mode : EpollMode) (hasParser : Bool) : Exec :=
+  match sc with
+  | .s1 | .s2_2 => .connQueue                                            -- `wsc.Execute = parser.Execute` (= `nbc.Execute`)
+  | .s2_1_1 | .s3_1 => if mode = .etOneshot then .sync else .connQueue    -- `nbc.Execute`, ET+ONESHOT: `SyncExecutor`
+  | .s2_1_2 | .s3_2 | .s4 => blockingParserExec hasParser                 -- `parser.Execute` if there is a parser
+
+/-- seeded variant C14-d: the ET+ONESHOT rule hoisted behind the switch with the guard `nbc != nil` -/
+def execOfHoisted (sc : Scenario) (mode : EpollMode) (hasParser : Bool) : Exec :=
+  if (pollerDriven sc || transferred sc) && mode = .etOneshot then .sync
+  else match sc with
+    | .s1 | .s2_2 | .s2_1_1 | .s3_1 => .connQueue
+    | _ => blockingParserExec hasParser
+
 end WsCb
